@@ -24,8 +24,8 @@ import (
 
 type S3AdminRouter struct{}
 
-func (ar *S3AdminRouter) Init(app *fiber.App, be backend.Backend, iam auth.IAMService, logger s3log.AuditLogger) {
-	controller := controllers.NewAdminController(iam, be, logger)
+func (ar *S3AdminRouter) Init(app *fiber.App, be backend.Backend, iam auth.IAMService, logger s3log.AuditLogger, readonly bool) {
+	controller := controllers.NewAdminController(iam, be, logger, readonly)
 
 	// CreateUser admin api
 	app.Patch("/create-user", controller.CreateUser)
